@@ -426,14 +426,6 @@ theorem sort_tracked (by_ : Option Bytes) (limit : Option (Int × Int)) (gets : 
     · exact sortFinish_tracked (db := db) (hq := hq) (hu := hu) (c := c) _ _ _
 end
 
-/-- commands that work on the session, the database table or nothing at all (everything else goes
-    through `onDb` on the connection's database) -/
-def Cmd.isSession : Cmd → Bool
-  | .select _ | .flushdb | .flushall | .multi | .exec | .discard | .watch _ | .unwatch
-  | .ping _ | .echo _ | .quit | .hello _ | .clientId | .clientGetname | .clientSetname _
-  | .clientInfo | .clientList | .dbsize | .opaque _ => true
-  | _ => false
-
 theorem onDb_tracked (s : State) (ref : Nat) (f : Db → R) (h : Tracked (s.getDb ref) (f (s.getDb ref)).db) :
     Tracked (s.getDb ref) ((onDb s ref f).st.getDb ref) := by
   unfold onDb
